@@ -12,6 +12,7 @@ CLAIMED = {
  "C03": ("Seeded search over interleavings of streams multiplexed on one downstream channel with yield hooks at collect/compute/enqueue; tick monotonicity, message-above-earlier-ticks, timestamp agreement and per-shard order are checked both in lock order and in queue order (single incarnation).", "4 C03", NOTE_R),
  "C04": ("Seeded search over shard orders, AddPartition/registration races and stops on rig R; drop requests are checked for exactly-once, naming, stop-produces-no-drop, and against the barrier signals observed through the yield hook (only after every shard handled its drop message), plus bounded liveness after the drain.", "4 C04", NOTE_R),
  "C12": ("Seeded operation histories with injected store faults against both real metadata backends over simulated etcd / MySQL servers; after every operation the whole state is read back through the public API and compared with a reference map keyed (root, task, collection, channel); failed operations must be all-or-nothing.", "4 C12", NOTE_ST),
+ "C14": ("Seeded interleavings of 1-3 batchers sharing the global memory budget under a simulated clock, with callback failures injected at any flush: every callback must receive exactly the packs buffered since the last flush in arrival order, errors must reach the caller, nothing may be left at shutdown and the global counter must be zero whenever all batchers are empty.", "4 C14", "Trusted base: the scripted callback and the bubble clock; the batcher itself is sequential, the simulator supplies the clock, the interleaving of batchers around the shared counter and the failure points."),
  "C17": ("Seeded histories of shard reports, removals and reloads against the real ReplicateMeteImpl over the real etcd / MySQL replicate stores (simulated servers) and an in-memory store; memory, store and the union of reports must agree after every step and readiness must equal union == targets.", "4 C17", NOTE_ST),
  "C20": ("Event part: create/drop collection/partition API events produced by the reader are checked for replication stamp, task and source operation time under scheduler-ordered barrier wake-ups. (Writer part of the property: see level_note.)", "4 C20", NOTE_R),
 }
